@@ -144,8 +144,9 @@ CHECKS = {
             "full-range views (slice, cover) and against where a probe fill lands",
             "partial: shapes of CentrallyBin / IrregularlyBin views, the partition statement for "
             "SparselyBin / CentrallyBin / IrregularlyBin and everything about binary64 rounding of "
-            "edges are decided by the correspondence and the oracle, not proved; 2-D grids, "
-            "projections, Categorize labels and mpv are not modelled (not checked)",
+            "edges are decided by the correspondence and the oracle, not proved; 2-D grids and "
+            "projections (Bin of Bin, SparselyBin of SparselyBin) are checked on the implementation "
+            "against the cells, not modelled; Categorize labels and mpv are not checked",
             "section 6 C13"),
     "C14": ("proof",
             "make_histograms(df, feature, bin_specs) is modelled as the primitive tree of the feature "
